@@ -302,6 +302,8 @@ func roundtripScenario(shard, n int) explore.Scenario {
 			cs := codecs()
 			cases, enc := 0, 0
 			held := map[string]heldRec{}
+			reused := map[string]resource.Resource{} // one long-lived destination object per spec kind
+			noInPlace := map[string]bool{}
 			for vi, mk := range mdVariants() {
 				if vi%n != shard {
 					continue
@@ -339,6 +341,30 @@ func roundtripScenario(shard, n int) explore.Scenario {
 						}
 						if d := same(r, back, time.Nanosecond); d != "" {
 							return d
+						}
+						// decoding into a destination that already holds another resource (a caller reusing its object)
+						// must give this resource, not a mixture
+						if um, ok := back.(protobuf.ResourceUnmarshaler); ok && !noInPlace[sk.name] {
+							if dst, ok := reused[sk.name]; ok {
+								err := pr2.Unmarshal(dst.(protobuf.ResourceUnmarshaler))
+								switch {
+								case err != nil && strings.Contains(err.Error(), "does not implement ProtoUnmarshaler"):
+									noInPlace[sk.name] = true // (specs decoded through struct tags have no in-place path)
+								case err != nil:
+									return "Unmarshal into a used destination: " + err.Error()
+								default:
+									if d := same(r, dst, time.Nanosecond); d != "" {
+										return "decoded into a destination that held another resource: " + d
+									}
+								}
+							} else {
+								fresh, err := protobuf.UnmarshalResource(pr2)
+								if err != nil {
+									return "UnmarshalResource: " + err.Error()
+								}
+								reused[sk.name] = fresh
+							}
+							_ = um
 						}
 						// the bytes and the decoded object handed out for the previous resource stay what they were
 						if h, ok := held["wire"]; ok {
